@@ -924,8 +924,14 @@ fn finish(
         for (s, e, name, toks) in &col.macros {
             match name.as_str() {
                 "panic" | "unreachable" | "unimplemented" | "todo" => {
-                    cx.rep(*s, *e, "vx_panic()");
-                    cx.count("R8(panic!/unreachable! -> vx_panic())");
+                    if req["refuse"].as_bool().unwrap_or(false) {
+                        // R8': in the "refusal" copy a panic! is a diverging call without precondition
+                        cx.rep(*s, *e, "vx_refuse()");
+                        cx.count("R8'(panic! -> vx_refuse(), diverging, no precondition)");
+                    } else {
+                        cx.rep(*s, *e, "vx_panic()");
+                        cx.count("R8(panic!/unreachable! -> vx_panic())");
+                    }
                 }
                 "assert" => {
                     let first = split_top_commas(toks);
